@@ -88,6 +88,27 @@ def one_case(run, specs, pts, q, kinds=(), transform=None):
     return ok and ok2
 
 
+def representation_cases(run):
+    from gbasis.integrals.nuclear_electron_attraction import nuclear_electron_attraction_integral
+    from gbasis.integrals.point_charge import point_charge_integral
+    rng = run.rng
+    cs = []
+    specs = [rand_shell(rng, l, cs, nprim=1 + l, nseg=1, exp_hi=5.0) for l in (0, 1)]
+    basis = make_basis(specs)
+    n = sum(s.size for s in specs)
+    pts = np.array([[0.0, 1.0, -1.0], [2.0, 0.0, 1.0]])
+    g = np.eye(n) * 2.0
+    g[0, n - 1] = g[n - 1, 0] = 1.0
+    rep = {"basis": core.describe_basis(specs), "points": pts.tolist(), "gamma": g.tolist()}
+    cpos = np.array([[1.0, 0.0, 0.0], [0.0, -1.0, 2.0]])
+    q = np.array([3.0, -2.0])
+    repr_case(run, "point_charge_integral", "points_coords", lambda c: point_charge_integral(basis, c, q), cpos, rep)
+    repr_case(run, "point_charge_integral", "points_charge", lambda z: point_charge_integral(basis, cpos, z), q, rep)
+    repr_case(run, "nuclear_electron_attraction_integral", "nuclear_coords", lambda c: nuclear_electron_attraction_integral(basis, c, q), cpos, rep)
+    T = np.array([[float((3 * r + 2 * c) % 5 - 2) for c in range(n)] for r in range(2)])
+    repr_case(run, "point_charge_integral", "transform", lambda t: point_charge_integral(basis, cpos, q, transform=t), T, rep)
+
+
 def check(run):
     rng = run.rng
     quick = run.tier == "quick"
@@ -146,10 +167,14 @@ def check(run):
     p = ShellSpec(1, [0.0, 0.0, 0.0], [1e4, 0.5], [[0.7], [1.0]], sph=True)
     one_case(run, [s, p], np.array([[0.0, 0.0, 0.0], [0.0, 0.0, 1.0], [100.0, -50.0, 25.0]]),
              np.array([1.0, -3.0, 8.0]), ("centre", "near", "veryfar"))
+    representation_cases(run)
 
 
 def replay(run, rep):
     n0 = len(run.violations)
+    if rep.get("case") == "representation":
+        representation_cases(run)
+        return len(run.violations) == n0
     t = rep.get("transform")
     one_case(run, specs_from(rep), np.array(rep["points"]), np.array(rep["charges"]), (),
              None if t is None else np.array(t))
